@@ -293,6 +293,12 @@ def gaussian_form(c, param, form, n, sparse_side, magnitude=None):
         elif form == 'dense':
             diag = None
             G = c.lower('g', n); arg = G @ G.T           # symmetric positive definite
+        elif form == 'block_dense':
+            diag = None                                  # (native) block-diagonal storage of independent correlated groups: eigenvectors with exact zeros
+            import scipy.linalg as _sl
+            G1 = c.lower('g', 2); G2 = c.lower('h', n - 2)
+            arg = _sl.block_diag(np.asarray(G1 @ G1.T + 0.3 * np.eye(2), dtype=float), np.asarray(G2 @ G2.T + 0.3 * np.eye(n - 2), dtype=float))
+            if param.startswith('sqrt'): arg = np.real(_sl.sqrtm(arg))          # the symmetric root
         elif form == 'dense_nonsym_root':
             diag = None
             arg = c.mat('r', n, n)
@@ -369,6 +375,10 @@ def jobs(tier):
                 for side in ('below', 'above'):
                     for n in (3, 4):
                         J.append(Job(f'Gaussian.logpdf:{param}:dense:sparse_switch={side}:n={n}', lambda c, p=param, n=n, s=side: gaussian_form(c, p, 'dense', n, s), 'B', G, nnum=12 if q else 60))
+    for param in ('cov', 'prec', 'sqrtcov', 'sqrtprec'):
+        for side in ('below', 'above'):
+            for n in (4, 5):
+                J.append(Job(f'Gaussian.logpdf:{param}:block_dense:sparse_switch={side}:n={n}', lambda c, p=param, n=n, s=side: gaussian_form(c, p, 'block_dense', n, s), 'B', G, nnum=6 if q else 30))
     # the same distributions in small / large units (native, bounded): full matrices whose entries are tiny or huge in absolute terms
     for param in ('cov', 'prec', 'sqrtcov', 'sqrtprec'):
         for form in ('dense', 'vector', 'sparsediag'):
